@@ -34,6 +34,7 @@ Definition errk_eqb (a b : errk) : bool :=
   | EInvalidEnvelope, EInvalidEnvelope | ELibMarshal, ELibMarshal | ELibUnmarshal, ELibUnmarshal
   | ELibPanic, ELibPanic | ENoProto, ENoProto | EMarshalReply, EMarshalReply
   | EUnmarshalResult, EUnmarshalResult | EWrappedPublish, EWrappedPublish => true
+  (* EOther equals nothing, not even itself: an unclassified error is always a mismatch *)
   | _, _ => false
   end.
 Definition res_eqb {A} (eqb : A -> A -> bool) (x y : res A) : bool :=
